@@ -1156,6 +1156,110 @@ GROUPS.append(("FnsLoad2.lean", ["Sds.Model.RL", "Sds.Generated.FnsLoad", "Sds.G
 ]))
 
 
+# ---- the memory-mapped view constructors: `MappedSlice<T>::new` (with `T::elements()` = `k`; the `from_raw_parts` cast is
+# the named payload `file[offset+1 ..][.. len*k]`), `RawVectorMapper::new`, `IntVectorMapper::new`, and their `map_offset` /
+# `map_len`.  The map is the array of its elements.
+MSLICE = ("N", "MappedSlice")
+RAWMAP = ("N", "RawVectorMapper")
+INTMAP = ("N", "IntVectorMapper")
+STRUCTS["MappedSlice"] = dict(lean="MappedSliceR", ctor=lambda v: "(⟨%s, %s⟩ : MappedSliceR)" % (v["data"], v["offset"]),
+                              fields={"data": ("N", "SlicePayload"), "offset": U}, fieldmap={})
+STRUCTS["SlicePayload"] = dict(lean="(Nat × List Word)", ctor=None, fields={}, fieldmap={})
+STRUCTS["RawVectorMapper"] = dict(lean="RawMapperR", ctor=lambda v: "(⟨%s, %s⟩ : RawMapperR)" % (v["len"], v["data"]), fields={"len": U, "data": MSLICE}, fieldmap={})
+STRUCTS["IntVectorMapper"] = dict(lean="IntMapperR", ctor=lambda v: "(⟨%s, %s, %s⟩ : IntMapperR)" % (v["len"], v["width"], v["data"]),
+                                  fields={"len": U, "width": U, "data": RAWMAP}, fieldmap={})
+MAP_PARAMS = {"map": ("(file : Array Word)", A, "file")}
+VIEW_CALLS = {
+    "map.len": dict(lean="file.size", ret=U, monadic=False),
+    "map.as_ref": dict(lean="file", ret=A, monadic=False),
+    "T::elements": dict(lean="k", ret=U, monadic=False),
+    "MappedSlice::new": dict(lean="gen_MappedSlice_new m 1 {0} {1}", ret=MSLICE, args=[A, U]),
+    "RawVectorMapper::new": dict(lean="gen_RawVectorMapper_new m {0} {1}", ret=RAWMAP, args=[A, U]),
+    "self.len": dict(lean="v.data.1", ret=U, monadic=False),
+    "self.data.map_offset": dict(lean="gen_%s_map_offset m v.data", ret=U),
+    "self.data.map_len": dict(lean="gen_%s_map_len m v.data", ret=U),
+}
+
+
+def view_calls(inner):
+    c = dict(VIEW_CALLS)
+    c["self.data.map_offset"] = dict(lean="gen_%s_map_offset m v.data" % inner, ret=U)
+    c["self.data.map_len"] = dict(lean="gen_%s_map_len m v.data" % inner, ret=U)
+    return c
+
+
+MS_SELF = dict(lean="MappedSliceR", var="v", rust="MappedSlice", mut=False, fields={"data": ("data", ("N", "SlicePayload")), "offset": ("offset", U)}, order=[])
+RM_SELF = dict(lean="RawMapperR", var="v", rust="RawVectorMapper", mut=False, fields={"len": ("len", U), "data": ("data", MSLICE)}, order=[])
+IM_SELF = dict(lean="IntMapperR", var="v", rust="IntVectorMapper", mut=False, fields={"len": ("len", U), "width": ("width", U), "data": ("data", RAWMAP)}, order=[])
+IMPL_MS = r"impl<'a, T: Serializable> MemoryMapped<'a> for MappedSlice<'a, T>"
+IMPL_RM = r"impl<'a> MemoryMapped<'a> for RawVectorMapper<'a>"
+IMPL_IM = r"impl<'a> MemoryMapped<'a> for IntVectorMapper<'a>"
+GROUPS.append(("FnsMapNew.lean", ["Sds.Model.GenStructs", "Sds.Model.GenSupport", "Sds.Generated.BitsFns"], [
+    dict(file="serialize.rs", impl=IMPL_MS, fn="new", name="gen_MappedSlice_new", calls=VIEW_CALLS, params=MAP_PARAMS, binders=["(k : Nat)"],
+         tyalias={"Self": MSLICE}, ret=MSLICE, err_as_fault=True,
+         source_subst=[(r"let\s+source\s*:\s*&\[u64\]\s*=\s*&slice\[offset \+ 1 \.\.\];\s*let\s+data\s*:\s*&\[T\]\s*=\s*unsafe\s*\{\s*slice::from_raw_parts\(source\.as_ptr\(\) as \*const T, len\)\s*\};",
+                        "let data = PAYLOAD;")],
+         paths={"PAYLOAD": ("(len, (file.toList.drop (offset + 1)).take (len * k))", ("N", "SlicePayload"))}),
+    dict(file="serialize.rs", impl=IMPL_MS, fn="map_offset", name="gen_MappedSlice_map_offset", self=MS_SELF, calls=VIEW_CALLS),
+    dict(file="serialize.rs", impl=IMPL_MS, fn="map_len", name="gen_MappedSlice_map_len", self=MS_SELF, calls=VIEW_CALLS, binders=["(k : Nat)"]),
+    dict(file="serialize.rs", impl=r"impl<'a> MemoryMapped<'a> for MappedBytes<'a>", fn="new", name="gen_MappedBytes_new",
+         calls=dict(VIEW_CALLS, **{"bits::bytes_to_words": dict(lean="gen_bytes_to_words m {0}", ret=U, args=[U])}), params=MAP_PARAMS,
+         tyalias={"Self": MSLICE}, ret=MSLICE, err_as_fault=True, structs_over={"MappedBytes": STRUCTS["MappedSlice"]},
+         source_subst=[(r"let\s+source\s*:\s*&\[u64\]\s*=\s*&slice\[offset \+ 1 \.\.\];\s*let\s+data\s*:\s*&\[u8\]\s*=\s*unsafe\s*\{\s*slice::from_raw_parts\(source\.as_ptr\(\) as \*const u8, len\)\s*\};",
+                        "let data = PAYLOAD;")],
+         paths={"PAYLOAD": ("(len, (file.toList.drop (offset + 1)).take ((len + 7) / 8))", ("N", "SlicePayload"))}),
+    dict(file="serialize.rs", impl=r"impl<'a> MemoryMapped<'a> for MappedBytes<'a>", fn="map_len", name="gen_MappedBytes_map_len", self=MS_SELF,
+         calls=dict(VIEW_CALLS, **{"bits::bytes_to_words": dict(lean="gen_bytes_to_words m {0}", ret=U, args=[U])})),
+    dict(file="raw_vector.rs", impl=IMPL_RM, fn="new", name="gen_RawVectorMapper_new", calls=VIEW_CALLS, params=MAP_PARAMS, tyalias={"Self": RAWMAP}, ret=RAWMAP,
+         err_as_fault=True),
+    dict(file="raw_vector.rs", impl=IMPL_RM, fn="map_offset", name="gen_RawVectorMapper_map_offset", self=RM_SELF, calls=view_calls("MappedSlice")),
+    dict(file="raw_vector.rs", impl=IMPL_RM, fn="map_len", name="gen_RawVectorMapper_map_len", self=RM_SELF,
+         calls=dict(view_calls("MappedSlice"), **{"self.data.map_len": dict(lean="gen_MappedSlice_map_len m 1 v.data", ret=U)})),
+    dict(file="int_vector.rs", impl=IMPL_IM, fn="new", name="gen_IntVectorMapper_new", calls=VIEW_CALLS, params=MAP_PARAMS, tyalias={"Self": INTMAP}, ret=INTMAP,
+         err_as_fault=True),
+    dict(file="int_vector.rs", impl=IMPL_IM, fn="map_offset", name="gen_IntVectorMapper_map_offset", self=IM_SELF, calls=view_calls("RawVectorMapper")),
+    dict(file="int_vector.rs", impl=IMPL_IM, fn="map_len", name="gen_IntVectorMapper_map_len", self=IM_SELF, calls=view_calls("RawVectorMapper")),
+]))
+
+
+# ---- `From<Vec<T>>`, `FromIterator<T>`, `Extend<T>` for IntVector (the `macro_rules! from_extend_int_vector` body at `u64, 64`;
+# the other instances differ in the item type and the width constant), `FromIterator<bool> for BitVector`.  A consumed iterator
+# is the list of its items; the `Vec` capacity seen by `reserve` is the arbitrary parameter `cap`.
+WLIST = ("N", "WordListIter")
+BLIST = ("N", "BoolListIter")
+STRUCTS["WordListIter"] = dict(lean="(List Word)", ctor=None, fields={}, fieldmap={})
+STRUCTS["BoolListIter"] = dict(lean="(List Bool)", ctor=None, fields={}, fieldmap={})
+FROMEXT_CALLS = {
+    "iter.into_iter": dict(lean="iter", ret=WLIST, monadic=False),
+    "<WordListIter>.size_hint": dict(lean="({0}.length, some {0}.length)", ret=("T", [U, ("O", U)]), monadic=False),
+    "<WordListIter>.next": dict(lean="({0}.head?, {0}.tail)", ret=("O", W), mutrecv=True),
+    "<BoolListIter>.size_hint": dict(lean="({0}.length, some {0}.length)", ret=("T", [U, ("O", U)]), monadic=False),
+    "self.reserve": dict(lean="gen_IntVector_reserve m cap {self} {0}", ret=UNIT, mutself=True, args=[U]),
+    "self.push": dict(lean="gen_IntVector_push m {self} {0}", ret=UNIT, mutself=True, args=[W]),
+    "IntVector::with_capacity": dict(lean="gen_IntVector_with_capacity m {0} {1}", ret=IV, result=True, args=[U, U]),
+    "IntVector::new": dict(lean="gen_IntVector_new m {0}", ret=IV, result=True, args=[U]),
+    "<IntVector>.extend": dict(lean="gen_IntVector_extend_u64 m cap {0} {1}", ret=UNIT, mutrecv=True, monadic=True, args=[WLIST]),
+    "RawVector::with_capacity": dict(lean="gen_RawVector_with_capacity m {0}", ret=RV, args=[U]),
+    "<RawVector>.push_bit": dict(lean="gen_RawVector_push_bit m {0} {1}", ret=UNIT, mutrecv=True, monadic=True, args=[B]),
+    "<RawVector>.count_ones": dict(lean="gen_RawVector_count_ones m {0}", ret=U),
+}
+MS64 = {"$t": "u64", "$w": "64"}
+GROUPS.append(("FnsFromExt.lean", ["Sds.Model.BitVector", "Sds.Generated.FnsVec", "Sds.Generated.FnsVec2", "Sds.Generated.FnsVec3", "Sds.Generated.FnsView",
+                                   "Sds.Generated.FnsConstr4"], [
+    dict(file="int_vector.rs", impl=r"impl Extend<u64> for IntVector\b", fn="extend", name="gen_IntVector_extend_u64", macro_subst=MS64,
+         self=dict(INT_SELF, mut=True), binders=["(cap : Nat)"], calls=FROMEXT_CALLS, params={"iter": ("(iter : List Word)", WLIST, "iter")},
+         tyalias=ITEM, fuel=["iter.length + 1"]),
+    dict(file="int_vector.rs", impl=r"impl From<Vec<u64>> for IntVector\b", fn="from", name="gen_IntVector_from_vec_u64", macro_subst=MS64,
+         binders=["(cap : Nat)"], calls=dict(FROMEXT_CALLS, **{"v.len": dict(lean="v.size", ret=U, monadic=False)}),
+         params={"v": ("(v : Array Word)", WLIST, "v.toList")}, tyalias={"Self": IV}, ret=IV),
+    dict(file="int_vector.rs", impl=r"impl FromIterator<u64> for IntVector\b", fn="from_iter", name="gen_IntVector_from_iter_u64", macro_subst=MS64,
+         binders=["(cap : Nat)"], calls=FROMEXT_CALLS, params={"iter": ("(iter : List Word)", WLIST, "iter")}, tyalias={"Self": IV}, ret=IV),
+    dict(file="bit_vector.rs", impl=r"impl FromIterator<bool> for BitVector\b", fn="from_iter", name="gen_BitVector_from_iter",
+         calls=dict(FROMEXT_CALLS, **{"iter.into_iter": dict(lean="iter", ret=BLIST, monadic=False)}),
+         params={"iter": ("(iter : List Bool)", BLIST, "iter")}, tyalias={"Self": BV}, ret=BV),
+]))
+
+
 def generate_fn_files(read, consts_by_file):
     """read(rel) -> source text; consts_by_file: {rel: {NAME: int}} (module / associated constants visible in that file)"""
     files = {}
